@@ -145,6 +145,8 @@ def run(tier):
         runlib.deviation_must_fail(out, 'C09_Parts', 2, dev)
     out.assumptions = ['failure kinds are the ones of the property list; sabotage of the capture stream (closing sys.stdout) is not among them',
                        'plugin (pytest) front end: see C15']
+    # random longer programs (5..8 parts) from TLC's simulation mode over the same specification
+    runlib.simulate_replay(out, 'C09_Parts' + ' 5..8 parts', 'C09_Parts', 5, 8, 800 if tier == 'quick' else 15000, extra_check=extra, verbose='rotate')
     from . import tracelib
     tracelib.traced_replay(out, 'C09_Parts<=2', 'C09_Parts', 2)
     tracelib.suite_phase(out, tier)
